@@ -102,9 +102,29 @@ def discharge(eng, inst, timeout_ms=20000, fuel=1, second_backend=None, params=N
                 out["verdict"] = "proved"
                 out["backend"] = be
                 break
-            if need_other and r2 == "unknown" and be == "z3-4.8":
-                # incomplete quantifiers on the old z3: a genuine not-proved signal
-                pass
+            if need_other and be == "z3-4.8":
+                # second attempt of the in-process solver with the full budget and another seed
+                sv2 = build_solver(eng, inst.hyps, inst.goal, timeout_ms, fuel)
+                sv2.set("smt.random_seed", 7)
+                t1 = time.time()
+                res2 = sv2.check()
+                dt3 = time.time() - t1
+                out["tried"].append("z3-5.1(py,seed7)")
+                out["seconds"] = round(out["seconds"] + dt3, 4)
+                v2 = classify(res2, sv2.reason_unknown() if res2 == z3.unknown else "")
+                if v2 == "proved":
+                    out["verdict"] = "proved"
+                    out["backend"] = "z3-5.1(py)"
+                    break
+                if v2 in ("refuted", "notproved"):
+                    out["verdict"] = v2
+                    out["reason"] = sv2.reason_unknown() if res2 == z3.unknown else ""
+                    if params is not None:
+                        try:
+                            out["model"] = extract_model(sv2.model(), params)
+                        except Exception:
+                            out["model"] = None
+                    break
     return out
 
 
